@@ -218,12 +218,18 @@ def eq_laws(oa, ob, oc, oa2):
             return 'bad: Partial equality does not follow expression equality'
         if ab and hash(p1) != hash(p2):
             return 'bad: equal Partials hash differently'
-        if p1 == Partial(oa, 'v3') or not (p1 == Partial(oa, X.Variable('v2'))) or not (p1 == Partial(oa, 'v2', compute_early=True)):
-            return 'bad: Partial equality w.r.t. variable / spelling / early flag'
+        if p1 == Partial(oa, 'v3') or not (p1 == Partial(oa, X.Variable('v2'))):
+            return 'bad: Partial equality w.r.t. variable / spelling'
+        try:
+            early_p, early_d = Partial(oa, 'v2', compute_early=True), Differential(oa, compute_early=True)
+        except OverflowError:
+            early_p = early_d = None       # a folded constant leaves the double range: outside the property
+        if early_p is not None and (not (p1 == early_p) or hash(p1) != hash(early_p)):
+            return 'bad: Partial equality w.r.t. the early flag'
         if hash(p1) != hash(Partial(oa, X.Variable('v2'))):
             return 'bad: Partial hash depends on the spelling of the variable'
         d1, d2 = Differential(oa), Differential(ob)
-        if (d1 == d2) != ab or (ab and hash(d1) != hash(d2)) or not (d1 == Differential(oa, compute_early=True)):
+        if (d1 == d2) != ab or (ab and hash(d1) != hash(d2)) or (early_d is not None and not (d1 == early_d)):
             return 'bad: Differential equality / hash'
         if d1 == p1 or p1 == d1 or p1 == oa or oa == p1 or d1 == oa:
             return 'bad: objects of different classes compare equal'
@@ -755,6 +761,23 @@ def run_line(line):
         pa, pc = Partial(oa, 'v2'), Partial(oc, 'v2')
         if repr(pa) == repr(pc) or repr(Differential(oa)) == repr(Differential(oc)):
             return 'bad: derivative objects of unequal expressions print identically'
+        return 'ok'
+    if cmd == 'LOCHASH':
+        p, k = sx.parse_point(ts, 1)
+        q, k = sx.parse_point(ts, k)
+        e, _ = sx.parse_expr(ts, k)
+        o = build(e)
+        pp, qq = mkpoint(p), mkpoint(q)
+        if not (pp == qq) or hash(pp) != hash(qq) or qq not in {pp} or {pp: 1}.get(qq) != 1:
+            return 'bad: points written in a different coordinate order are different set members'
+        try:
+            l1, l2 = LocatedDifferential(o, pp), LocatedDifferential(build(e), qq)
+        except (DomainError, CoordinateMissing, OverflowError):
+            return 'ok'
+        if not (l1 == l2) or hash(l1) != hash(l2) or l2 not in {l1} or {l1: 7}.get(l2) != 7:
+            return 'bad: LocatedDifferentials at the same point (coordinates in a different order) are different set members'
+        if str(l1._numeric_partials) != str({k_: l2._numeric_partials[k_] for k_ in l1._numeric_partials}):
+            return 'bad: components differ'
         return 'ok'
     if cmd == 'NUMREPR':
         import random as _r
